@@ -57,6 +57,10 @@ class Runner:
              np.array([[0, 1, 1, 0], [0, 0, 0, -1], [0, 0, 0, 1], [0, 0, 0, 0]]), np.array([[0.0]])]
         self.W = W
         self.lganm = [sempler.LGANM(w, np.arange(len(w), dtype=float), np.ones(len(w)) * (1 + 0.5 * k)) for k, w in enumerate(W)]
+        # fixtures 1 and 2 are built from (lo, hi) ranges with a construction seed (0 and 7): sampling them without a
+        # random_state must still be unseeded
+        self.lganm[1] = sempler.LGANM(W[1], (0, 1), (1, 2), random_state=0)
+        self.lganm[2] = sempler.LGANM(W[2], (-1, 1), (0.5, 1.5), random_state=7)
         self.lganm_iv = [dict(), dict(do_interventions={0: (1.0, 2.0)}), dict(do_interventions={1: 3}),
                          dict(shift_interventions={0: (1, 1)}, noise_interventions={1: (0, 0.5)}),
                          dict(noise_interventions={0: 2.5}), dict(do_interventions={0: 1}, shift_interventions={0: (2, 2)}),
